@@ -4,7 +4,7 @@ import numpy as np
 from sim.core import Violation, Inconclusive, InjectedAbort, RandomProxy, patched_random, close
 from sim.models import nested_variant_spec, gen_mdp_spec, MDPView, make_mdp, sibling_mdp_spec, rotated_probability_spec, update_model_in_place
 from sim.refsolve import game_W
-from sim.ctx import RunCtx, make_scheduler, gen_sched
+from sim.ctx import RunCtx, make_scheduler, gen_sched, construct
 from sim import shrink as shr
 
 PROP = 'C17'
@@ -55,7 +55,7 @@ def execute(case, script=None):
     ctx = RunCtx(PROP, view)
     ctx.W = game_W(view)
     ctx.declare_probes('pair_at_exactly_m', 'pair_at_m_minus_1_at_end', 'pair_sampled_beyond_m', 'unknown_pair_at_end',
-                       'episode_from_absorbing_start', 'learner_reused', 'discount_close_to_one', 'explicit_state_list_with_unreachable_states', 'rerun_after_abort', 'model_updated_in_place', 'nested_run', 'first_result_checked_after_reuse', 'explicit_state_list_permuted')
+                       'episode_from_absorbing_start', 'learner_reused', 'discount_close_to_one', 'explicit_state_list_with_unreachable_states', 'rerun_after_abort', 'model_updated_in_place', 'nested_run', 'first_result_checked_after_reuse', 'constructed_by_position', 'explicit_state_list_permuted')
     sched = make_scheduler(case, script, ctx)
     try:
         return _execute(rm, view, case['cfg'], ctx, sched)
@@ -204,8 +204,11 @@ def _execute(rm, view, cfg, ctx, sched):
     proxy = RandomProxy(sched)
     with patched_random([rm], proxy):
         try:
-            learner = rm.RMAX(episodes=cfg['episodes'], rmax=rmax, num_transition_samples=m, bellman_convergence_diff=tol,
-                              seed=cfg['seed'], event_listener_class=L)
+            positional = (len(view.spec['trans']) + view.n) % 3 == 0          # a third of the learners are built by position
+            if positional:
+                ctx.probe('constructed_by_position')
+            learner = construct(rm.RMAX, 'RMAX', dict(episodes=cfg['episodes'], rmax=rmax, num_transition_samples=m, bellman_convergence_diff=tol,
+                                seed=cfg['seed'], event_listener_class=L), positional)
             if rview is not None:
                 # fault F9 for models: trained on with rotated probabilities first, then the model's own distribution
                 # objects are updated in place to this workload's probabilities (only if the learner's rmax assertion
